@@ -891,3 +891,17 @@ Proof.
   - destruct (files_parallel c items st0) as [r s] eqn:E.
     destruct (files_parallel_status_proof _ _ _ _ Hok' Hq Hnp E) as [-> A]. cbn. exact A.
 Qed.
+
+(* ------------------------------------------------------------------ C18 x C15: a failed search sets status 2 *)
+Lemma failure_status_2_proof : forall (l : low) (base : cfg) (items : list item),
+  c_setup_ok base = true ->
+  choose_driver (l_mode l) (matches_possible (l_patterns_empty l) (l_max_count_zero l)) (low_threads l) = DSearch ->
+  forallb item_no_pipe_serial items = true ->
+  existsb item_err_serial items = true ->
+  ~ (existsb item_match items = true /\ l_quiet l = true) ->
+  o_status (run_model ParseOk l base items) = 2%N.
+Proof.
+  intros l base items Hok Hd Hnp He Hn.
+  destruct (run_status_proof l base items Hok) as (A & _). rewrite (A Hd Hnp). unfold spec_status.
+  rewrite He. cbn [orb]. apply status_table_proof. split; [reflexivity|exact Hn].
+Qed.
